@@ -497,6 +497,10 @@ func genC14(r *Rand, p *Plan, tier string) {
 		cs.Key = []byte(adm.Key)
 		if r.Chance(20) {
 			cs.Key = []byte(r.token("W"))
+			if r.Chance(40) {
+				// and the answer to it cannot be written
+				cs.WFault = append(cs.WFault, WFaultAt(1, PickOf(r, "error", "error", "short")))
+			}
 		}
 		flags := PickOf(r, uint8(0), 0, 1)
 		// a valid prefix putting the connection into some handler state
